@@ -184,6 +184,16 @@ def F16():
     return r == {'a': None}, (t, r)
 
 
+def F17():
+    return K2()
+
+
+def F18():
+    import tests.utils  # noqa
+    r = _try(lambda: _build("a: !unsafe {b: !metadata{{'safe': True}} {c: !call:tests.utils.malicious {}}}"))
+    return isinstance(r, str) and 'UnsafeError' in r, r
+
+
 def K1():
     """C12.R1 known finding: namespace cached in sys.modules across builds."""
     code = ("import awesomeyaml as ay\n"
@@ -243,7 +253,7 @@ def K6():
     return out == str(sum(range(130))), (rc, out, err[-120:])
 
 
-ALL = ['F%d' % i for i in range(1, 17)] + ['K1', 'K2', 'K3', 'K4', 'K5', 'K6']
+ALL = ['F%d' % i for i in range(1, 19)] + ['K1', 'K2', 'K3', 'K4', 'K5', 'K6']
 
 if __name__ == '__main__':
     if len(sys.argv) == 3 and sys.argv[1] == '--one':
